@@ -132,7 +132,10 @@ export class Prog {
 
 // ---- template literals -----------------------------------------------------------------------
 const NUM_IN = new Set(["0", "1", "2", "12", "1.5", "-1", "10", "21"]);
+// models of known defects, switched on by a caller that wants to know whether a disagreement is explained by one
+export const defectModels = { unsignedNumberHoles: false };
 function numberPart(s) {
+  if (defectModels.unsignedNumberHoles && s.startsWith("-")) return OUT;
   if (NUM_IN.has(s)) return IN;
   if (s === "") return OUT;
   // anything with a character that can never occur in a JS numeric literal string form
